@@ -84,3 +84,44 @@ package padding
 //@   loop 1 invariant -1 <= i && i < pad
 //@   loop 1 invariant forall j :: srcLen - pad + i < j && j < srcLen ==> src[j] == 0
 //@   loop 1 decreases i + 1
+
+//@ pred be64(s, o) := s[o]*72057594037927936 + s[o+1]*281474976710656 + s[o+2]*1099511627776 + s[o+3]*4294967296 + s[o+4]*16777216 + s[o+5]*65536 + s[o+6]*256 + s[o+7]
+//@ pred m3over(n, bs) := ite(n > 0 && n % bs == 0, 0, bs - n % bs)
+
+//@ func NewISO9797M3Padding property C18
+//@   panics iff blockSize < 8 || blockSize > 255
+//@   ensures 8 <= blockSize && blockSize <= 255
+//@   ensures typeis(result, iso9797M3Padding)
+//@   modifies nothing
+
+//@ func (iso9797M3Padding).Pad property C18,C19
+//@   requires 8 <= pad && pad <= 255
+//@   ensures len(result) == pad + len(src) + m3over(len(src), pad)
+//@   ensures len(result) % pad == 0
+//@   ensures forall i :: 0 <= i && i < pad - 8 ==> result[i] == 0
+//@   ensures be64(result, pad - 8) == 8 * len(src)
+//@   ensures forall i :: 0 <= i && i < len(src) ==> result[pad + i] == old(src[i])
+//@   ensures forall i :: pad + len(src) <= i && i < len(result) ==> result[i] == 0
+//@   ensures cap(src) >= len(result) ==> sameslice(result, src[:len(result)])
+//@   ensures cap(src) < len(result) ==> fresh(result)
+//@   modifies src[0..cap(src)]
+
+//@ func (iso9797M3Padding).Unpad property C18,C19
+//@   requires 8 <= pad && pad <= 255
+//@   ensures err == nil ==> len(src) >= 2 * pad && len(src) % pad == 0
+//@   ensures err == nil ==> sameslice(result, src[pad : pad + len(result)])
+//@   ensures err == nil ==> len(src) == pad + len(result) + m3over(len(result), pad)
+//@   ensures err == nil ==> forall i :: 0 <= i && i < pad - 8 ==> src[i] == 0
+//@   ensures err == nil ==> be64(src, pad - 8) == 8 * len(result)
+//@   ensures err == nil ==> forall i :: pad + len(result) <= i && i < len(src) ==> src[i] == 0
+//@   ensures err != nil ==> result == nil
+//@   ensures forall n :: (0 <= n && len(src) == pad + n + m3over(n, pad) && be64(src, pad - 8) == 8 * n
+//@+           && (forall i :: 0 <= i && i < pad - 8 ==> src[i] == 0)
+//@+           && (forall i :: pad + n <= i && i < len(src) ==> src[i] == 0)) ==> err == nil && len(result) == n
+//@   modifies nothing
+//@   loop 1 invariant -1 <= rangeindex && rangeindex < pad - 8
+//@   loop 1 invariant forall j :: 0 <= j && j <= rangeindex ==> src[j] == 0
+//@   loop 1 decreases pad - rangeindex
+//@   loop 2 invariant -1 <= rangeindex && rangeindex < srcLen - pad - dstLen
+//@   loop 2 invariant forall j :: pad + dstLen <= j && j <= pad + dstLen + rangeindex ==> src[j] == 0
+//@   loop 2 decreases srcLen - rangeindex
